@@ -713,6 +713,12 @@ func (s *Sys) exec1(toks []string) string {
 				return "cs(viol," + worst + ")"
 			}
 			return "cs(ok)"
+		case "dbstring":
+			// MutableTree.String() dumps the node store through the stored-bytes decoders
+			if _, err := t.String(); err != nil {
+				return "err"
+			}
+			return "ok"
 		case "isempty":
 			return rBool(t.IsEmpty())
 		case "fastflags":
